@@ -15,6 +15,8 @@
            | DialFail(b) (dials fail from now on / work again) | Tick6 (6 s: sniffing sessions and cached dial failures expire)
            | Tick121 (121 s: every endpoint expires as well).
    Transports are numbered in the order they were dialled successfully.
+   Keys: "sym<flow>|<scope>" (source + destination) and "cone|<scope>" (source only); the scope is the kernel routing result
+   (group, mark; DSCP / process / MAC as well when the flow is routed in userspace) when ScopeSensitive, and empty otherwise.
 
    Property layer (checked here on every state, and by the replay on what the real handlePkt wrote to the transports):
      NoDup           no datagram is written upstream twice
@@ -23,21 +25,30 @@
      HeldAreInitials only Initial datagrams of a ClientHello that is not yet covered are ever held
      BatchOrdered    the datagrams written by one call are in ingress order and end with the datagram of the call
      CompleteAtEnd   when the call that completes the ClientHello returns, every datagram held for it has been written
-     NameRoutes      an endpoint dialled after a name was found is dialled through the group that name routes to, and
-                     carries that name
+     NameRoutes      an endpoint dialled for a flow routed in userspace after a name was found is dialled through the group
+                     that name routes to; a flow the kernel already routed to a group is dialled through that group
      OneTransport    all datagrams written by one call that needed no retry went through one transport; a key whose endpoint
                      is alive is never dialled again
    The implementation layer (which key is looked up, when sniffing is skipped) is transcribed from the code; a
    disagreement of the real code with it that does not break the property layer is reported as model drift only. *)
 EXTENDS Integers, Sequences, FiniteSets, TLC, Json
 
-CONSTANTS EFlows, NFlows, MaxEvents, MaxConns, MaxT6, MaxPk, Faults
+CONSTANTS EFlows, NFlows, MaxEvents, MaxConns, MaxT6, MaxPk, Faults,
+          RRs,             \* kernel routing results a datagram may arrive with: "cpr0" / "cpr1" (routed in userspace, DSCP 0 / 1),
+                           \* "g1" / "g2" (the kernel already chose that group)
+          ScopeSensitive   \* the routing program looks at packet metadata (ControlPlane.udpRouteScopeSensitive): endpoints are then
+                           \* also keyed by the routing scope, and flows routed in userspace are bound to their destination
 
 Flows == EFlows \cup NFlows
-Sym(f) == "sym" \o f
-Keys == {"cone"} \cup {Sym(f) : f \in EFlows}
+Scope(rr) == IF ScopeSensitive THEN rr ELSE ""
+Force(rr) == ScopeSensitive /\ rr \in {"cpr0", "cpr1"}
+Scopes == {Scope(rr) : rr \in RRs}
+SymK(f, sc) == "sym" \o f \o "|" \o sc
+ConeK(sc) == "cone|" \o sc
+Keys == {ConeK(sc) : sc \in Scopes} \cup {SymK(f, sc) : f \in Flows, sc \in Scopes}
+GroupFor(rr, dom) == IF rr \in {"g1", "g2"} THEN rr ELSE IF dom = "example.com" THEN "g2" ELSE "g1"
 Name(f) == IF f = "A" THEN "example.com" ELSE "other.org"
-Group(dom) == IF dom = "example.com" THEN "g2" ELSE "g1"        \* routing { domain(full: example.com) -> g2, fallback: g1 }
+\* userspace routing: routing { domain(full: example.com) -> g2, fallback: g1 }   (GroupFor below)
 Pieces(k) == CASE k = "i1" -> {1} [] k = "i2" -> {2} [] k = "if" -> {1, 2} [] OTHER -> {}
 IsInit(k) == k \in {"i1", "i2", "if"}
 MaxRetry == 2
@@ -56,55 +67,61 @@ RemoveEp(s, k) == LET c == s.ep[k].conn IN [s EXCEPT !.ep[k] = NoEp, !.conns[c].
 Drop(s, pl) == [s EXCEPT !.dropped = @ \cup {pl[i] : i \in 1..Len(pl)}]
 
 \* UdpEndpointPool.GetOrCreate(key): the live endpoint, a cached failure, or a dial through the group the name routes to
-GetOrCreate(s, key, dom, f) ==
+GetOrCreate(s, key, dom, f, rr) ==
   LET e == s.ep[key] IN
   IF e.st = "live" THEN [s |-> s, ok |-> TRUE]
   ELSE IF e.st = "failed" /\ s.now < e.until THEN [s |-> s, ok |-> FALSE]
   ELSE IF s.dialFail THEN [s |-> [s EXCEPT !.ep[key] = [NoEp EXCEPT !.st = "failed", !.until = s.now + 2], !.dials = @ + 1], ok |-> FALSE]
-  ELSE [s |-> [s EXCEPT !.conns = Append(@, [grp |-> Group(dom), closed |-> 0, wfail |-> FALSE, dom |-> dom]),
+  ELSE [s |-> [s EXCEPT !.conns = Append(@, [grp |-> GroupFor(rr, dom), closed |-> 0, wfail |-> FALSE, dom |-> dom, rr |-> rr]),
                         !.ep[key] = [st |-> "live", conn |-> Len(s.conns) + 1, dom |-> dom, tgt |-> f, until |-> 0],
                         !.dials = @ + 1], ok |-> TRUE]
 
 \* the write loop of handlePkt: a failed write retires the endpoint, removes it and dials again (at most MaxRetry times)
-RECURSIVE Deliver(_, _, _, _, _, _)
-Deliver(s, key, dom, f, pl, retry) ==
+RECURSIVE Deliver(_, _, _, _, _, _, _)
+Deliver(s, key, dom, f, pl, retry, rr) ==
   IF pl = <<>> THEN s
   ELSE IF retry > MaxRetry THEN Drop(s, pl)
-  ELSE LET g == GetOrCreate(s, key, dom, f) IN
+  ELSE LET g == GetOrCreate(s, key, dom, f, rr) IN
        IF ~g.ok THEN Drop(g.s, pl)
        ELSE LET c == g.s.ep[key].conn IN
-            IF g.s.conns[c].wfail THEN Deliver(RemoveEp(g.s, key), key, dom, f, pl, retry + 1)
-            ELSE Deliver([g.s EXCEPT !.out = Append(@, [c |-> c, p |-> Head(pl)])], key, dom, f, Tail(pl), retry)
+            IF g.s.conns[c].wfail THEN Deliver(RemoveEp(g.s, key), key, dom, f, pl, retry + 1, rr)
+            ELSE Deliver([g.s EXCEPT !.out = Append(@, [c |-> c, p |-> Head(pl)])], key, dom, f, Tail(pl), retry, rr)
 
-\* one call of handlePkt for datagram pid of flow f, kind k (classification included)
-HandlePkt(s0, f, k, pid) ==
+\* one call of handlePkt for datagram pid of flow f, kind k, arriving with kernel routing result rr (classification included)
+HandlePkt(s0, f, k, pid, rr) ==
   LET elig == f \in EFlows
       init == elig /\ IsInit(k)
+      sc == Scope(rr)
+      force == Force(rr)
+      sym == SymK(f, sc)
+      cone == ConeK(sc)
       \* the ingress loop: an Initial creates (or refreshes) the sniffing session of its connection
       s1 == IF init /\ s0.sess[f].st = "none" THEN [s0 EXCEPT !.sess[f] = [st |-> "open", have |-> {}, buf |-> <<>>]] ELSE s0
       confirmed == init \/ (elig /\ s1.sess[f].st # "none")
-      lookup == IF elig THEN Sym(f) ELSE "cone"
+      lookup == IF force \/ elig THEN sym ELSE cone
       found == IF Live(s1, lookup) THEN lookup
-               ELSE IF lookup # "cone" /\ Live(s1, "cone") /\ s1.ep["cone"].tgt = f THEN "cone"
-               ELSE IF elig /\ ~confirmed /\ Live(s1, "cone") THEN "cone"
+               ELSE IF ~force /\ lookup # cone /\ Live(s1, cone) /\ s1.ep[cone].tgt = f THEN cone
+               ELSE IF ~force /\ lookup = cone /\ Live(s1, sym) /\ s1.ep[sym].tgt = f THEN sym
+               ELSE IF ~force /\ elig /\ ~confirmed /\ Live(s1, cone) THEN cone
                ELSE "none"
+      dialKey(dom) == IF force \/ dom # "" \/ confirmed THEN sym ELSE cone
   IN
   IF found # "none" /\ s1.ep[found].dom # ""
   THEN \* an endpoint that already carries a name: written at once; a failed write removes it and the flow is dialled again
        LET c == s1.ep[found].conn dom == s1.ep[found].dom IN
-       IF s1.conns[c].wfail THEN Deliver(RemoveEp(s1, found), Sym(f), dom, f, <<pid>>, 0)
+       IF s1.conns[c].wfail THEN Deliver(RemoveEp(s1, found), sym, dom, f, <<pid>>, 0, rr)
        ELSE [s1 EXCEPT !.out = Append(@, [c |-> c, p |-> pid])]
   ELSE IF found # "none"
   THEN \* a live endpoint without a name: no sniffing, the datagram goes through it
-       Deliver(s1, found, "", f, <<pid>>, 0)
+       Deliver(s1, found, "", f, <<pid>>, 0, rr)
   ELSE IF ~init
-  THEN Deliver(s1, IF confirmed THEN Sym(f) ELSE "cone", "", f, <<pid>>, 0)
+  THEN Deliver(s1, dialKey(""), "", f, <<pid>>, 0, rr)
   ELSE \* sniffing
        LET ss == s1.sess[f] IN
-       IF ss.st = "done" THEN Deliver(s1, Sym(f), Name(f), f, <<pid>>, 0)
+       IF ss.st = "done" THEN Deliver(s1, sym, Name(f), f, <<pid>>, 0, rr)
        ELSE LET have == ss.have \cup Pieces(k) IN
             IF have = {1, 2}
-            THEN Deliver([s1 EXCEPT !.sess[f] = [st |-> "done", have |-> have, buf |-> <<>>]], Sym(f), Name(f), f, Append(ss.buf, pid), 0)
+            THEN Deliver([s1 EXCEPT !.sess[f] = [st |-> "done", have |-> have, buf |-> <<>>]], sym, Name(f), f, Append(ss.buf, pid), 0, rr)
             ELSE [s1 EXCEPT !.sess[f] = [st |-> "open", have |-> have, buf |-> Append(ss.buf, pid)]]
 
 Held(s) == UNION {{s.sess[f].buf[i] : i \in 1..Len(s.sess[f].buf)} : f \in EFlows}
@@ -113,16 +130,18 @@ Written(s) == {s.out[i].p : i \in 1..Len(s.out)}
 Obs(s, s2) == [writes |-> SubSeq(s2.out, Len(s.out) + 1, Len(s2.out)), dials |-> s2.dials, closed |-> Closed(s2),
                held |-> Held(s2), dropped |-> s2.dropped,
                groups |-> [c \in 1..Len(s2.conns) |-> s2.conns[c].grp], names |-> [c \in 1..Len(s2.conns) |-> s2.conns[c].dom]]
-Log(ev, f, k, c, s2) == hist' = Append(hist, [ev |-> ev, f |-> f, k |-> k, c |-> c, obs |-> Obs(S, s2)])
+Log(ev, f, k, c, s2) == hist' = Append(hist, [ev |-> ev, f |-> f, k |-> k, c |-> c, rr |-> "", obs |-> Obs(S, s2)])
+LogP(f, k, rr, s2) == hist' = Append(hist, [ev |-> "pkt", f |-> f, k |-> k, c |-> 0, rr |-> rr, obs |-> Obs(S, s2)])
 
 Kinds(f) == IF f \in EFlows THEN {"i1", "i2", "if", "s"} ELSE {"s"}
 
-Pkt(f, k) == /\ S.npk < MaxPk
+Pkt(f, k, rr) ==
+             /\ S.npk < MaxPk
              /\ LET pid == S.npk + 1
-                    s2 == HandlePkt([S EXCEPT !.npk = pid, !.pk = Append(@, [f |-> f, k |-> k])], f, k, pid)
+                    s2 == HandlePkt([S EXCEPT !.npk = pid, !.pk = Append(@, [f |-> f, k |-> k])], f, k, pid, rr)
                     s3 == [s2 EXCEPT !.calls = Append(@, [p |-> pid, from |-> Len(S.out) + 1, to |-> Len(s2.out), conns |-> Len(S.conns)])]
                 IN /\ Len(s3.conns) <= MaxConns
-                   /\ S' = s3 /\ Log("pkt", f, k, 0, s3)
+                   /\ S' = s3 /\ LogP(f, k, rr, s3)
 WFail(c) == /\ "wfail" \in Faults /\ c \in 1..Len(S.conns) /\ S.conns[c].closed = 0 /\ ~S.conns[c].wfail
             /\ S' = [S EXCEPT !.conns[c].wfail = TRUE] /\ Log("wfail", "", "", c, S')
 RExit(c) == /\ "rexit" \in Faults /\ c \in 1..Len(S.conns) /\ S.conns[c].closed = 0
@@ -139,7 +158,7 @@ Tick6 == /\ "tick" \in Faults /\ S.t6 < MaxT6 /\ S' = [Expire(S, FALSE) EXCEPT !
 Tick121 == /\ "tick" \in Faults /\ S' = [Expire(S, TRUE) EXCEPT !.now = @ + 121, !.t6 = 0] /\ Log("tick121", "", "", 0, S')
 
 Next == /\ Len(hist) < MaxEvents
-        /\ \/ \E f \in Flows : \E k \in Kinds(f) : Pkt(f, k)
+        /\ \/ \E f \in Flows : \E k \in Kinds(f) : \E rr \in RRs : Pkt(f, k, rr)
            \/ \E c \in 1..MaxConns : WFail(c) \/ RExit(c)
            \/ \E b \in BOOLEAN : DialFail(b)
            \/ Tick6 \/ Tick121
@@ -155,12 +174,12 @@ BatchOrdered == \A i \in 1..Len(S.calls) : LET c == S.calls[i] IN
                   /\ c.to >= c.from => S.out[c.to].p = c.p
                   /\ \A a \in c.from..c.to : S.pk[S.out[a].p].f = S.pk[c.p].f
 CompleteAtEnd == \A f \in EFlows : S.sess[f].st = "done" => S.sess[f].buf = <<>>
-NameRoutes == \A c \in 1..Len(S.conns) : S.conns[c].grp = Group(S.conns[c].dom)
+NameRoutes == \A c \in 1..Len(S.conns) : S.conns[c].grp = GroupFor(S.conns[c].rr, S.conns[c].dom)
 OneTransport == \A i \in 1..Len(S.calls) : LET c == S.calls[i] IN
                   Len(S.conns) = c.conns => \A a, b \in c.from..c.to : S.out[a].c = S.out[b].c
 TypeOK == S.npk <= MaxPk /\ Len(S.conns) <= MaxConns + 3
 
 Done == Len(hist) = MaxEvents
-Emit == Done => PrintT(<<"BEHAVIOUR", ToJson([hist |-> hist, pk |-> S.pk])>>)
+Emit == Done => PrintT(<<"BEHAVIOUR", ToJson([hist |-> hist, pk |-> S.pk, scope |-> ScopeSensitive])>>)
 View == <<S, Len(hist)>>
 =============================================================================
